@@ -10,6 +10,7 @@ import random
 
 import numpy as np
 
+from vlib import kf
 from vlib import tableref as TR
 from vlib.driver import digest
 
@@ -21,7 +22,9 @@ RULE = ("random sequences (<= 14 ops) over tables of 0-8 rows interleaving looku
         "negative, out of range, offsets landing inside) with every mutation of the table API (whole index column by "
         "item and by attribute, single cells of the index column by position / name / tuple / slice / list, other "
         "cells, new column, del, pop, _append_row, _update); plus EXHAUSTIVE scope: every index column over a 3-name "
-        "alphabet up to length 4 x every single mutation (cache warmed first) x every lookup. A sequence is "
+        "alphabet up to length 4 x every single mutation (cache warmed first) x every lookup. Tables DERIVED through the API "
+        "(t*k, t+u, u+t, -t, rows.reverse(), rows[a:b], rows[list], rows[mask], cols[...], Table.concatenate) from a table whose "
+        "name cache is warm replace the table under test; the source tables stay alive and are re-checked at the end. A sequence is "
         "non-trivial when a warm-cache mutation of the index column is followed by a lookup; distinct = sha1(names, ops).")
 ASSUMPTIONS = [
     "index names do not contain the separators '::', '<<', '>>' (the literal-name-first rule of table[col,row] then coincides with the general rule)",
@@ -136,11 +139,70 @@ def apply_mutation(t, op):
         t._append_row({c: (op[1] if c == "name" else (float(n) if c == "x" else 0.0)) for c in t._col_names})
     elif k == "update":
         t._update({})
+    elif k == "derive":
+        return derive(t, op[1:])
     else:
         raise ValueError(op)
+    return t
 
 
-INDEX_MUTATIONS = ("setcol", "setattr", "cellpos", "cellname", "celltuple", "cellslice", "celllist", "append", "iadd", "imul")
+def derive(t, d):
+    """A table DERIVED from t through the API (the source stays alive): its rows must resolve against its own column."""
+    from xdeps import Table
+    how = d[0]
+    if how == "mul":
+        r = t * d[1]
+    elif how == "add":
+        r = t + make_table(d[1])
+    elif how == "radd":
+        r = make_table(d[1]) + t
+    elif how == "neg":
+        r = -t
+    elif how == "reverse":
+        r = t.rows.reverse()
+    elif how == "slice":
+        r = t.rows[d[1]:d[2]]
+    elif how == "take":
+        r = t.rows[list(d[1])]
+    elif how == "mask":
+        r = t.rows[np.array(d[1], dtype=bool)]
+    elif how == "cols":
+        r = t.cols[["x", "y"]] if d[1] == "list" else t.cols["x y"]
+    elif how == "concat":
+        r = Table.concatenate([t, make_table(d[1])] if d[2] else [make_table(d[1]), t])
+    else:
+        raise ValueError(d)
+    if "name" not in r._col_names or "x" not in r._col_names:
+        raise AssertionError("derived table lost a column: %s" % r._col_names)
+    # the harness' own position column (raw write to a NON-index column, so that table['x', row] reads the position)
+    r._data["x"] = np.arange(len(r._data["name"]), dtype=float)
+    return r
+
+
+def derived_names(names, d):
+    how = d[0]
+    if how == "mul":
+        return list(names) * d[1]
+    if how == "add":
+        return list(names) + list(d[1])
+    if how == "radd":
+        return list(d[1]) + list(names)
+    if how in ("neg", "reverse"):
+        return list(names)[::-1]
+    if how == "slice":
+        return list(names)[d[1]:d[2]]
+    if how == "take":
+        return [names[i] for i in d[1]]
+    if how == "mask":
+        return [q for q, m in zip(names, d[1]) if m]
+    if how == "cols":
+        return list(names)
+    if how == "concat":
+        return list(names) + list(d[1]) if d[2] else list(d[1]) + list(names)
+    raise ValueError(d)
+
+
+INDEX_MUTATIONS = ("setcol", "setattr", "cellpos", "cellname", "celltuple", "cellslice", "celllist", "append", "iadd", "imul", "derive")
 
 
 def all_lookups(names, alphabet):
@@ -191,11 +253,12 @@ def check_labels(t, counters, wit):
     return None
 
 
-def run_sequence(names0, ops, counters, replay=False):
+def run_sequence(names0, ops, counters, replay=False, known=None):
     """Execute a recorded sequence; returns violation or None."""
     t = make_table(names0)
     warm = False
     pending = False
+    sources = []
     for i, op in enumerate(ops):
         wit = {"names": names0, "ops": ops[:i + 1]}
         if op[0] == "look":
@@ -222,15 +285,55 @@ def run_sequence(names0, ops, counters, replay=False):
                 return dict(wit, what="C07 columns out of step after a failing %s" % op[1])
         else:
             try:
-                apply_mutation(t, op)
+                t2 = apply_mutation(t, op)
             except Exception as exc:
                 return dict(wit, what="C07 mutation %s raised %s: %s" % (op[0], type(exc).__name__, str(exc)[:200]))
+            if t2 is not t:
+                if cur_names(t2) != derived_names(cur_names(t), op[1:]):
+                    return dict(wit, what="C07 harness premise: derived table %s has index column %s, source %s" % (op[1:], cur_names(t2), cur_names(t)))
+                if warm:
+                    counters["derived_from_a_warm_source"] = counters.get("derived_from_a_warm_source", 0) + 1
+                sources.append((t, cur_names(t), bool(np.shares_memory(t._data["name"], t2._data["name"]))))
+                t = t2
             counters["mut_" + op[0]] = counters.get("mut_" + op[0], 0) + 1
             if warm and op[0] in INDEX_MUTATIONS:
                 pending = True
             if len(t._data["x"]) != len(t._data["name"]):
                 return dict(wit, what="C07 columns out of step after %s" % op[0])
+    # the tables the later ones were derived from are still alive: they too resolve against THEIR current column
+    for k, (src, snap, aliased) in enumerate(sources):
+        wit = {"names": names0, "ops": ops, "source_table": k}
+        nm = sorted(set(cur_names(src)) | set(snap)) + ["zz"]
+        v = check_lookups(src, [(q, c, 0) for q in nm[:5] for c in (None, -1, 1)], ["get_index_str", "getitem_tuple"], counters, wit) \
+            or check_labels(src, counters, wit)
+        counters["source_tables_rechecked"] = counters.get("source_tables_rechecked", 0) + 1
+        if v:
+            # KF7 (open finding, by mechanism): the derived table shares the memory of the index column (numpy view / same
+            # array), the source's column CHANGED through writes made on the derived table, and the source answers exactly
+            # as a scan of its column at derivation time would (its name cache was never told)
+            if aliased and cur_names(src) != snap and kf.is_open("KF7", ID) and stale_answer(src, snap, v):
+                counters["kf7_source_tables"] = counters.get("kf7_source_tables", 0) + 1
+                if known is not None:
+                    known.append(kf.known("KF7"))
+                continue
+            v["what"] += " (a table another one was derived from, re-checked at the end; its column at derivation time was %s, memory shared: %s)" % (snap, aliased)
+            return v
     return None
+
+
+def stale_answer(src, snap, v):
+    """True when the failing answer of `src` is exactly what a scan of its OLD column `snap` gives."""
+    if "lookup" in v:
+        form, nm, cnt, off = v["lookup"]
+        return do_lookup(src, form, nm, cnt, off) == expected_lookup(snap, nm, cnt, off)
+    try:
+        return list(src.cols.get_index_unique()) == TR.unique_labels(snap)
+    except Exception:
+        return False
+
+
+KF7_WITNESS = (["a", "b", "a", "c"], [["look", "floordiv_str", "c", None, 0], ["derive", "neg"], ["cellpos", 0, "z"],
+                                      ["look", "get_index_str", "z", None, 0]])
 
 
 def gen_sequence(rng):
@@ -258,8 +361,32 @@ def gen_sequence(rng):
             ops.append(["labels"])
         else:
             k = rng.choice(["setcol", "setattr", "cellpos", "cellname", "celltuple", "cellslice", "celllist",
-                            "othercell", "newcol", "delcol", "pop", "append", "update", "bad", "iadd", "imul"])
-            if k == "bad":
+                            "othercell", "newcol", "delcol", "pop", "append", "update", "bad", "iadd", "imul", "derive"])
+            if k == "derive":
+                if any(c[0] in ("newcol",) for c in ops) or len(names) > 24:
+                    continue       # tables combined by + / concatenate must have the same columns
+                how = rng.choice(["mul", "add", "radd", "neg", "reverse", "slice", "take", "mask", "cols", "concat"])
+                other = [rng.choice(alphabet) for _ in range(rng.randrange(0, 4))]
+                if how == "mul":
+                    d = ["mul", rng.choice([1, 2, 2, 3])]
+                elif how in ("add", "radd"):
+                    d = [how, other]
+                elif how == "concat":
+                    d = ["concat", other, rng.random() < 0.5]
+                elif how == "slice":
+                    a = rng.randrange(0, n + 1)
+                    d = ["slice", a, rng.randrange(a, n + 1)]
+                elif how == "take":
+                    d = ["take", [rng.randrange(n) for _ in range(rng.randrange(1, n + 2))]]
+                elif how == "mask":
+                    d = ["mask", [rng.random() < 0.6 for _ in range(n)]]
+                elif how == "cols":
+                    d = ["cols", rng.choice(["list", "str"])]
+                else:
+                    d = [how]
+                names = derived_names(names, d)
+                ops.append(["derive"] + d)
+            elif k == "bad":
                 # an update that FAILS (absent row, position out of range, wrong number of values): whatever it left
                 # behind, later lookups must follow the column as it is now
                 kind = rng.choice(["cellname", "cellpos", "cellslice", "celltuple"])
@@ -338,6 +465,10 @@ def exhaustive(maxlen, counters, digests, violations, samples):
                     v = "ab" if names0[i] != "ab" else "a"
                     occ = [j for j, q in enumerate(names0) if q == names0[i]].index(i)
                     muts += [["cellname", lab[i], v], ["celltuple", [names0[i], occ], v]]
+            muts += [["derive", "mul", 2], ["derive", "mul", 1], ["derive", "add", ["a", "ab"]], ["derive", "radd", ["b"]], ["derive", "neg"],
+                     ["derive", "cols", "list"], ["derive", "concat", ["ab", "a"], True], ["derive", "slice", 0, L], ["derive", "slice", 1, L]]
+            if L:
+                muts += [["derive", "take", list(range(L))[::-1]], ["derive", "take", [0] * 2], ["derive", "mask", [i % 2 == 0 for i in range(L)]]]
             for mut in muts:
                 if mut is not None and mut[0] == "othercell" and L == 0:
                     continue
@@ -347,9 +478,13 @@ def exhaustive(maxlen, counters, digests, violations, samples):
                 v = check_lookups(t, all_lookups(names0, alphabet), ["get_index_str", "getitem_tuple"], counters, wit)
                 if v is None and mut is not None:
                     try:
-                        apply_mutation(t, mut)
+                        src = t
+                        t = apply_mutation(t, mut)
                     except Exception as exc:
                         v = dict(wit, what="C07 mutation %s raised %s" % (mut, type(exc).__name__))
+                    if v is None and t is not src:
+                        counters["derived_from_a_warm_source"] = counters.get("derived_from_a_warm_source", 0) + 1
+                        v = check_lookups(src, all_lookups(cur_names(src), alphabet), ["floordiv_str"], counters, wit)
                     if v is None:
                         counters["warm_mutations_followed_by_lookup"] = counters.get("warm_mutations_followed_by_lookup", 0) + 1
                         v = check_lookups(t, all_lookups(cur_names(t), alphabet), FORMS, counters, wit) or check_labels(t, counters, wit)
@@ -368,18 +503,25 @@ def exhaustive(maxlen, counters, digests, violations, samples):
 
 def run_shard(spec):
     rng = random.Random("C07:%s:%s" % (spec["seed"], spec["shard"]))
-    counters, digests, samples, violations = {}, set(), [], []
+    counters, digests, samples, violations, known = {}, set(), [], [], []
     if spec.get("replay"):
         wit = spec["replay"]
-        v = run_sequence(wit["names"], [op for op in wit["ops"] if isinstance(op, list)], counters)
-        return {"evaluations": 1, "digests": [], "samples": [], "counters": counters, "violations": [v] if v else [], "known": []}
+        v = run_sequence(wit["names"], [op for op in wit["ops"] if isinstance(op, list)], counters, known=known)
+        return {"evaluations": 1, "digests": [], "samples": [], "counters": counters, "violations": [v] if v else [], "known": known}
+    if kf.is_open("KF7", ID):
+        k0 = []
+        v = run_sequence(KF7_WITNESS[0], KF7_WITNESS[1], {}, known=k0)
+        if v:
+            violations.append(v)
+        known.extend(k0)
+        counters["kf7_witness_reproduced"] = int(bool(k0))
     if spec["part"] == "exhaustive":
         exhaustive(spec["maxlen"], counters, digests, violations, samples)
     else:
         for s in range(spec["sequences"]):
             names0, ops = gen_sequence(rng)
             before = counters.get("warm_mutations_followed_by_lookup", 0)
-            v = run_sequence(names0, ops, counters)
+            v = run_sequence(names0, ops, counters, known=known)
             counters["sequences"] = counters.get("sequences", 0) + 1
             if v:
                 violations.append(v)
@@ -390,13 +532,15 @@ def run_shard(spec):
             if len(samples) < 2 and len(ops) > 8:
                 samples.append({"names": names0, "ops": ops[:8]})
     return {"evaluations": counters.get("sequences", 0) + counters.get("exhaustive_cases", 0), "digests": sorted(digests),
-            "samples": samples, "counters": counters, "violations": violations, "known": []}
+            "samples": samples, "counters": counters, "violations": violations, "known": known}
 
 
 TEXT = ("Held on every lookup observed: exhaustive small scope (every index column over a 3-name alphabet up to "
         "length 3 quick / 4 thorough x every single mutation with a warm cache x every lookup form) plus ~5 000 "
         "(quick) / ~220 000 (thorough) random interleavings; every lookup is compared with a linear scan of the raw "
         "current index column and every unique label must resolve to its own row."
-        " 40% of the random tables use element-style names with punctuation (single ':', '<', '>', '.', '|', '[', '$', space).")
+        " 40% of the random tables use element-style names with punctuation (single ':', '<', '>', '.', '|', '[', '$', space)."
+        " Derived tables (products, sums, reversals, row / column selections, concatenations) of warm tables are looked up like any other, "
+        "and their sources are re-checked afterwards (open finding KF7: index-column memory shared between a selection and its source).")
 NOTE = "Trusted: the linear-scan reference (vlib/tableref.py) and reading the raw current column from table._data."
 TECHNIQUE = "runtime monitoring: reference-model monitor (linear scan of the current index column) after every operation of interleaved lookup/mutation sequences with cache-temperature tracking + exhaustive small scope"
